@@ -28,7 +28,7 @@ EXPLANATION = (
     "INLET / OUTLET / ALL correctly. R-C01-3 (T2 x T3): the product of the sign conventions balance row x adjacency (from the fixture) x link-row "
     "orientation (first qualifying path of 8 headloss builders) is +1. R-C01-4 (T2): tank / reservoir demand recomputation, leak demand and flow copies in "
     "store_results_in_network. R-C01-5a (T2; Demands.at T3 on a six-entry fixture): TimeSeries.at / Pattern.at / Demands.at. R-C01-5b (call sites by AST, "
-    "arguments by T2): every demand_timeseries_list.at in wntr.sim passes sim_time + pattern_start and the global multiplier. R-C01-5c (T1 CFG must-pass): "
+    "arguments by T2): every demand_timeseries_list.at in wntr.sim passes sim_time + pattern_start and the global multiplier. R-C01-5f (same sweep over every <obj>.at(t) call in wntr.sim, arguments by T2): every time series / pattern whose time argument depends on sim_time (reservoir head patterns as well as demands) is read at sim_time + pattern_start, one clock at all sites (sibling agreement); sites outside wntr.sim (pump speed conditions in controls.py) are listed in a note, not decided. R-C01-5c (T1 CFG must-pass): "
     "every path from the loop head to the solve refreshes demand and source-head parameters (create_hydraulic_model: presence of the call only). R-C01-5d "
     "(T2; getters by AST pattern, appends by regex): DD copies the requested demand, PDD the demand variable; results come from node.demand / leak_demand / "
     "link.flow. R-C01-5e (T1 CFG): every pass of each element loop of the refresh assigns. R-C01-6 (T2 + AST shape match): isolation-graph entries are 0 "
@@ -1111,6 +1111,81 @@ def run(repo, chk):
     chk.expect((VAR, "demand_var") in site_fns, "R-C01-5b", "demand_var initialises the demand variable from the requested demand", loc(VAR), found=sorted(site_fns))
     chk.floor("R-C01-5b", 8)
 
+    # ---------------------------------------------------------------- R-C01-5f one pattern clock for every time series evaluated in wntr.sim
+    # EPANET offsets EVERY pattern by options.time.pattern_start.  Every `<obj>.at(t)` call in wntr.sim (head / demand / speed time series, patterns)
+    # whose time argument depends on the simulation clock must therefore pass sim_time + pattern_start -- the same clock at every site.  The time
+    # argument is the symbolic value that reaches the call (temporaries followed, positional or `time=`), not its spelling.
+    def at_call(txt):
+        """receiver text if the call text is `<receiver>.at(...)` itself"""
+        head = txt.split(".at(", 1)
+        if len(head) == 2 and head[0].count("(") == head[0].count(")") and head[0].count("[") == head[0].count("]") and " " not in head[0]:
+            return head[0]
+        return None
+    clocks = {}            # normalised clock text -> [site]
+    clock_sites = set()    # (module, function, time-series attribute) evaluated against the simulation clock
+    for rel in repo.modules("wntr/sim"):
+        t = repo.tree(rel)
+        for fn in [n for n in ast.walk(t) if isinstance(n, ast.FunctionDef)]:
+            sites = calls(fn, attr="at")
+            if not sites:
+                continue
+            fn._rel = rel
+            fn._qual = fn.name
+            chk.fn(fn)
+            exs = SplitExec(test_hook=B.std_test_hook)
+            reached, done = set(), set()
+            for o in exs.run(fn) + SplitExec(test_hook=lambda t_, n_, s_: (True if t_.startswith("hasattr(") else B.std_test_hook(t_, n_, s_))).run(fn):
+                for e in o.events:
+                    if e[0] != "call" or (e[2][0] or "").split(".")[-1] != "at" or at_call(e[1]) is None:
+                        continue
+                    reached.add(e[3])
+                    if (e[3], e[1]) in done:
+                        continue
+                    done.add((e[3], e[1]))
+                    name, args, kwargs = e[2]
+                    targ = args[0] if args else kwargs.get("time")
+                    try:
+                        tv = sp.expand(exs.S(targ))
+                    except ExtractError:
+                        tv = None
+                    simt = sorted(s.name for s in tv.free_symbols if s.name == "sim_time" or s.name.endswith(".sim_time")) if tv is not None else []
+                    if tv is None or not simt:
+                        # not an evaluation against the simulation clock (or not a number): outside this rule
+                        chk.note("R-C01-5f: %s:%d %s is not evaluated at a time that depends on sim_time (argument %s)" % (rel, e[3], at_call(e[1]) + ".at", val_text(targ)))
+                        continue
+                    pre = simt[0][:-len("sim_time")]              # `wn.` / `self._wn.`: the model whose clock is read
+                    want_t = exs.sym(pre + "sim_time") + exs.sym(pre + "options.time.pattern_start")
+                    chk.expect(len(simt) == 1 and is_zero(tv - want_t), "R-C01-5f", "%s:%s evaluates %s at sim_time + pattern_start (the pattern clock)" % (rel, fn.name, re.sub(r"^.*\.", "", at_call(e[1])) + ".at"),
+                               "%s:%d" % (rel, e[3]), "EPANET offsets every pattern by options.time.pattern_start: a time series evaluated at the bare simulation time lags the demand patterns "
+                               "by pattern_start (a reservoir head pattern then drives the wrong head into the balance of every step)", expected=str(want_t), found=str(tv))
+                    clock_sites.add((rel, fn.name, re.sub(r"^.*\.", "", at_call(e[1]))))
+                    norm_clock = str(tv.xreplace({s: sp.Symbol(s.name[len(pre):] if s.name.startswith(pre) else s.name) for s in tv.free_symbols}))
+                    clocks.setdefault(norm_clock, []).append("%s:%d" % (rel, e[3]))
+            missed = {c.lineno for c in sites} - reached
+            if missed:
+                chk.error("R-C01-5f: .at(...) call sites at lines %s of %s:%s were not reached by the extractor" % (sorted(missed), rel, fn.name))
+    chk.expect(len(clocks) == 1, "R-C01-5f", "every time series evaluated against the simulation clock in wntr.sim uses the same pattern clock", loc(PAR),
+               "sibling agreement: head, demand and any other pattern are read at one and the same clock", expected="one clock at all sites",
+               found="; ".join("%s at %s" % (k, ", ".join(v)) for k, v in sorted(clocks.items())))
+    # the sweep is not vacuous: the reservoir-head and demand evaluations the balance depends on were among the sites (however many copies there are)
+    need = {(PAR, "source_head_param", "head_timeseries"), (HYD, "store_results_in_network", "head_timeseries"), (PAR, "expected_demand_param", "demand_timeseries_list")}
+    chk.expect(need <= clock_sites, "R-C01-5f", "the reservoir-head and requested-demand evaluations of wntr.sim located", loc(PAR), found=sorted(need - clock_sites))
+    # evaluations against a simulation clock outside wntr.sim are not decided here: listed for the record
+    outside = []
+    for rel in repo.modules():
+        if rel.startswith("wntr/sim/"):
+            continue
+        try:
+            t = repo.tree(rel)
+        except AnchorError:
+            continue
+        for c in [n for n in ast.walk(t) if isinstance(n, ast.Call) and isinstance(n.func, ast.Attribute) and n.func.attr == "at"]:
+            a0 = c.args[0] if c.args else next((k.value for k in c.keywords if k.arg == "time"), None)
+            if a0 is not None and "sim_time" in unparse(a0):
+                outside.append("%s:%d %s" % (rel, c.lineno, norm(c)))
+    if outside:
+        chk.note("R-C01-5f out of scope (outside wntr.sim, evaluated at a simulation clock): " + "; ".join(outside))
+
     # ---------------------------------------------------------------- R-C01-5c refresh before every solve
     rs = repo.func(CORE, "WNTRSimulator.run_sim")
     chk.fn(rs)
@@ -1320,6 +1395,18 @@ WITNESSES = [
     dict(name="graph-entry-also-zero-when-isolated", file=CORE,
          old="            if link.status == wntr.network.LinkStatus.Closed:\n                vals.append(0)\n                vals.append(0)\n            else:\n                vals.append(1)\n                vals.append(1)\n",
          new="            val = 0 if (link._is_isolated or link.status == wntr.network.LinkStatus.Closed) else 1\n            vals.append(val)\n            vals.append(val)\n", rule="R-C01-6"),
+    dict(name="reservoir-head-read-at-bare-sim-time", file=HYD, old="        node._head = node.head_timeseries.at(wn.sim_time + wn.options.time.pattern_start)\n",
+         new="        node._head = node.head_timeseries.at(wn.sim_time)\n", rule="R-C01-5f"),
+    dict(name="source-head-refresh-clock-hoisted-without-pattern-start", file=PAR, old="    if not hasattr(m, 'source_head'):\n",
+         new="    head_clock = wn.sim_time\n    if not hasattr(m, 'source_head'):\n",
+         also=[("            m.source_head[node_name].value = node.head_timeseries.at(wn.sim_time + wn.options.time.pattern_start)\n",
+                "            m.source_head[node_name].value = node.head_timeseries.at(time=head_clock)\n")], rule="R-C01-5f"),
+    dict(name="pattern-clock-hoisted-into-a-temporary", file=PAR, old="    if not hasattr(m, 'source_head'):\n",
+         new="    pattern_clock = wn.sim_time + wn.options.time.pattern_start\n    if not hasattr(m, 'source_head'):\n",
+         also=[("            m.source_head[node_name] = aml.Param(node.head_timeseries.at(wn.sim_time + wn.options.time.pattern_start))\n",
+                "            m.source_head[node_name] = aml.Param(node.head_timeseries.at(pattern_clock))\n"),
+               ("            m.source_head[node_name].value = node.head_timeseries.at(wn.sim_time + wn.options.time.pattern_start)\n",
+                "            series = node.head_timeseries\n            m.source_head[node_name].value = series.at(time=pattern_clock)\n")], silent=True),
     dict(name="clock-hoisted-without-pattern-start", file=PAR,
          old="            m.expected_demand[node_name].value = node.demand_timeseries_list.at(wn.sim_time+pattern_start, multiplier=demand_multiplier)",
          new="            demands = node.demand_timeseries_list\n            clock = wn.sim_time\n            m.expected_demand[node_name].value = demands.at(clock, multiplier=demand_multiplier)", rule="R-C01-5b"),
